@@ -13,6 +13,7 @@ from . import r_fmt as Q
 from . import r_c11 as D
 from . import r_witness as N
 from . import r_seed2 as U
+from . import r_vba as V
 
 
 def part(fn, **kw):
@@ -29,31 +30,31 @@ def _p(explanation, not_decided, rules, assumptions=None):
 def registry():
     R = {}
     R["C01"] = _p(
-        "Decides structural clauses of C01 on the typed HIR of src/xlsx: the two cell walkers move the row/column cursor identically (R-SIB-XLSX); the declared <dimension> only sizes capacity hints (R-DIM); element names are matched prefix-insensitively and like with like (R-NS); parts are opened only through the case-insensitive resolver (R-PART); the `t` attribute maps to the documented variants (R-TAB-T) and error literals to error kinds (R-TAB-ERR); Empty cells are filtered before every push (R-TIGHT); readers expand empty elements and never trim (R-XMLCFG); the shared-string table gets one entry per <si> (R-SST); a <c> with an `r` attribute is reported at the (row, col) that attribute decodes to, in that order, and otherwise at the running cursor (R-CELLPOS); every Text/CData piece of an element is appended, never assigned (R-CDATA).",
+        "Decides structural clauses of C01 on the typed HIR of src/xlsx: the two cell walkers move the row/column cursor identically (R-SIB-XLSX); a <c> with an `r` attribute is reported at the (row, col) that attribute decodes to, in that order, and otherwise at the running cursor (R-CELLPOS); the declared <dimension> only sizes capacity hints (R-DIM); running min/max of the bounding box are updated independently (R-MINMAX); element names are matched prefix-insensitively and like with like (R-NS); parts are opened only through the case-insensitive resolver (R-PART); the `t` attribute maps to the documented variants (R-TAB-T) and error literals to error kinds (R-TAB-ERR); shared-string and style indices are parsed as usize (R-IDXWIDTH); Empty cells are filtered before every push (R-TIGHT) and Empty means exactly the Empty variant (R-EMPTYDEF); readers expand empty elements and never trim (R-XMLCFG); the shared-string table gets one entry per <si> (R-SST); every Text/CData piece of an element is unescaped and appended, never assigned (R-CDATA).",
         "A1 -> (row, col) arithmetic, number parsing, relationship-target normalisation, the zip layer; an identical edit applied to both walkers",
         [S.r_sib_xlsx, W.r_dim, X.r_ns, X.r_part, T.r_tab_t, T.r_tab_err, S.r_tight, X.r_xmlcfg, part(W.r_sst, only=["xlsx shared"]), W.r_minmax, X.r_cdata, U.r_cellpos, U.r_idxwidth, U.r_emptydef])
     R["C02"] = _p(
-        "Decides structural clauses of C02 on src/xls.rs: the sheet-substream dispatch has an arm feeding the cell vector for each record kind the property names (R-TAB-REC); BoolErr / FormulaValue error codes follow MS-XLS BErr (R-TAB-ERR); DIMENSIONS only sizes a reserve (R-DIM).",
-        "RK / IEEE bit arithmetic, sign extension, MULRK column arithmetic",
+        "Decides structural clauses of C02 on src/xls.rs: the sheet-substream dispatch has an arm feeding the cell vector for each record kind the property names (R-TAB-REC); BoolErr / FormulaValue error codes follow MS-XLS BErr (R-TAB-ERR); every length guard that raises Len { expected: E } is exactly `len < E` (R-LENGUARD); the RK divide-by-100 flag divides by 100 and the 30-bit integer comes from an arithmetic shift of an i32 (R-RK); DIMENSIONS only sizes a reserve (R-DIM); bounding-box min/max are independent (R-MINMAX); per-sheet accumulators are appended to, never reassigned (R-ACCUM); shared strings that continue into CONTINUE records re-read the compression flag, skip rich/extended data in order and dequeue fragments first-in first-out (R-CONT).",
+        "IEEE bit arithmetic, MULRK column arithmetic, string decoding inside encoding_rs",
         [T.r_tab_rec, T.r_tab_err, W.r_dim, W.r_minmax, M.r_rk, M.r_accum, W.r_cont, U.r_lenguard])
     R["C03"] = _p(
         "Decides structural clauses of C03 on src/xlsb: sibling agreement of next_cell / next_formula on record framing, row state, record ids and position computation (R-SIB-XLSB); error-code table (R-TAB-ERR); BrtWsDim only sizes capacity hints (R-DIM); Empty filter and header-row filter of the lazy range builder (R-TIGHT); the record-header decoders read at most 2 (type) / 4 (size) bytes of 7 bits each with shifts 7, 14, 21 -- partial evaluation of their MIR with the input bytes unknown (R-VARINT).",
         "RK arithmetic beyond the flag handling, wide_str decoding",
         [S.r_sib_xlsb, T.r_tab_err, W.r_dim, S.r_tight, W.r_minmax, M.r_rk, U.r_varint, U.r_utf16])
     R["C04"] = _p(
-        "Decides the value-attribute -> variant table of the ods cell decoder (R-TAB-ODS) and the reader configuration (R-XMLCFG). Amplification by repeat counts is decided under C06.",
-        "everything in get_range: bounding box, re-expansion of repeated rows/columns, interior empty runs (run-length arithmetic)",
+        "Decides on src/ods.rs: the value-attribute -> variant table of the cell decoder (R-TAB-ODS); only the two *-repeated attributes feed repeat counts and the parsed count is not clamped (R-ODSREP); only the row arm of read_table consumes reader events (R-ODSFLAT); every grid row written by get_range is exactly col_max + 1 - col_min cells wide, by linear evaluation of the emitted slice lengths (R-ODSWIDTH); paragraphs are joined by a first-paragraph flag (R-ODSPARA); whitespace and comments between elements never abort a pull loop (R-BENIGN); reader configuration (R-XMLCFG).  Amplification by repeat counts is decided under C06.",
+        "the run-length arithmetic of get_range beyond the width clause (first_empty_rows_repeated, row_max bookkeeping), bounding-box positions",
         [T.r_tab_ods, X.r_xmlcfg, W.r_odspara, M.r_odsrep, M.r_odsflat, U.r_odswidth, U.r_benign])
     R["C06"] = _p(
         "Decides, over the HIR/MIR of the reader modules (cfb, vba, xls, xlsb, xlsx, ods, utils, auto, plus Dimensions::len and Range::from_sparse): XML pull loops leave on Eof (R-EOF); self-chasing loops have a bounding exit (R-CHASE); Range::range preconditions (R-RANGEPRE); and, by abstract interpretation of MIR (linear expressions over source atoms, intervals, symbolic and exact slice lengths, branch refinement, helper summaries): every slice/index/split/copy on file bytes or with a file-derived index is bounds-proved (R-INDEX), file-derived arithmetic cannot overflow (R-ARITH), file-derived allocation sizes are capped or input-bounded (R-ALLOC), file-derived trip counts consume input or do not grow memory (R-AMP), unwrap/expect/panic constructs are discharged by an enumerated idiom (R-PANIC); the byte count of Read::read is never discarded (R-IOAMT); the character loop of read_dbcs advances to the next CONTINUE fragment or fails whenever characters are owed (R-DBCS-PROGRESS); reserved compound-file sector numbers never reach Sectors::get (R-CFBRES: one known finding).  Sites the pinned tree leaves unchecked are listed in known_findings.json (each group demonstrated by a failing input) or audited_safe.json (one reason per site).",
         "dependencies (zip, quick-xml, encoding_rs, codepage); time / memory constants",
-        [X.r_eof, W.r_rangepre, M.r_chase, Z.r_mir, U.r_ioamt, U.r_dbcs_progress, U.r_cfbres])
+        [X.r_eof, W.r_rangepre, M.r_chase, Z.r_mir, U.r_ioamt, U.r_dbcs_progress, U.r_cfbres, U.r_ovbachunk])
     R["C07"] = _p(
         "Decides: the write footprint of every public read method of the four reader structs is limited to the archive cursor and designated setters/loaders, and no reader stores a cursor (R-FRAME); every Sheets method forwards to the same method of the wrapped reader (R-DELEG); worksheet_range_at & co use n itself (R-AT); worksheets() goes through worksheet_range or the very field it returns (R-WS); unknown names reach WorksheetNotFound (R-NOTFOUND); From<DataRef> for Data preserves variants (R-TAB-FROM); a zip lacking the format's mandatory part is rejected so that auto-detection cannot pick the wrong reader (R-AUTODETECT); a borrowed range / cell reader keeps the workbook exclusively borrowed (compile_fail witnesses with compiling twins, R-WITNESS).",
         "equality of values across calls beyond the frame condition (zip / XML determinism is trusted)",
         [W.r_frame, S.r_deleg, S.r_at, S.r_ws, S.r_notfound, T.r_tab_from, W.r_autodetect, N.r_witness])
     R["C08"] = _p(
-        "Decides: options.header_row has one writer and is re-read on every call (R-FRAME); the lazy filter keeps rows >= n and pads at row n iff needed (R-TIGHT); Range::range is only reached with start <= end established (R-RANGEPRE); Sheets::with_header_row delegates (R-DELEG).",
+        "Decides: options.header_row has one writer and is re-read on every call (R-FRAME); the lazy filter keeps rows >= n and pads at row n iff needed (R-TIGHT); the eager readers window the stored range as range((n, start.1), end) with n from HeaderRow::Row and start/end of the stored range (R-HDRWIN); Range::range is only reached with start <= end established (R-RANGEPRE); the declared dimension never decides what is returned (R-DIM); Sheets::with_header_row delegates (R-DELEG).",
         "value equality between the eager (xls, ods) and lazy (xlsx, xlsb) implementations",
         [W.r_frame, S.r_tight, W.r_rangepre, S.r_deleg, W.r_dim, U.r_hdrwin])
     R["C09"] = _p(
@@ -61,7 +62,7 @@ def registry():
         "values of the casts themselves, serde's own behaviour",
         [W.r_iter, W.r_pos, T.r_tab_de, W.r_hdr, W.r_mapkey, U.r_intcast, U.r_numparse, U.r_intarm, U.r_emptydef])
     R["C10"] = _p(
-        "Decides: numeric Data/DataRef variants are built in the three readers only through formats::format_excel_* whose format operand comes from the cell's style lookup and whose date-system operand from the reader flag (R-NUMCTOR); the two built-in id tables agree with each other and with ECMA-376 18.8.30 (R-TAB-FMT); format kind -> DateTime/TimeDelta flavour (R-TAB-FMTKIND); style tables get one entry per xf (R-SST).",
+        "Decides: numeric Data/DataRef variants are built in the three readers only through formats::format_excel_* whose format operand comes from the cell's style lookup and whose date-system operand from the reader flag (R-NUMCTOR); the xlsb style index is the 24-bit iStyleRef only (R-XLSBCELL), xlsx style indices are parsed as usize (R-IDXWIDTH); the two built-in id tables agree with each other and with ECMA-376 18.8.30 (R-TAB-FMT); declared formats win over built-in ids (R-FMTPREC); format kind -> DateTime/TimeDelta flavour (R-TAB-FMTKIND); format codes are unescaped (R-UNESC); style tables get one entry per xf (R-SST); the scanner's decision table is evaluated over a finite abstract input space against 13 clauses (R-FMT-SCAN).",
         "the full number-format grammar (R-FMT-SCAN decides the per-character decision table of the scanner against the clauses the property states, not the language as a whole)",
         [W.r_numctor, T.r_tab_fmt, T.r_tab_fmtkind, part(W.r_sst, only=["cellXfs", "XF table"]), W.r_fmtprec, M.r_unesc, Q.r_fmt_scan, U.r_xlsbcell, U.r_idxwidth])
     R["C11"] = _p(
@@ -79,21 +80,25 @@ def registry():
     R["C14"] = _p(
         "Decides: operator tokens (R-TAB-OP) and error literals (R-TAB-ERR) of both token decoders follow MS-XLS/MS-XLSB; operand tokens push one entry and consume the payload width of the spec, reference tokens render the column masked to 14 bits with `$` exactly on the absolute components from the right payload bytes (R-TAB-PTG); formula cell positions through the sibling rules (R-SIB-XLSX, R-SIB-XLSB); defined-name tables get one entry per record so name tokens resolve (R-SST); both decoders keep the same operand-stack / output-buffer discipline per token class (R-SIB-PTG); PtgAttr sub-token widths follow the spec incl. the variable PtgAttrChoose table (R-TAB-ATTR); 3-D references and defined names reach their sheet through ExternSheet (R-XTI); every digit of a column index reaches the rendered letters (R-DIGITS, must-use on MIR); explicit cell references decide formula positions (R-CELLPOS).",
         "the digit arithmetic of push_column beyond the must-use clause, function-name table contents",
-        [T.r_tab_op, T.r_tab_err, G.r_tab_ptg, S.r_sib_xlsx, S.r_sib_xlsb, part(W.r_sst, only=["Lbl", "BrtName"]), U.r_xti, U.r_digits, U.r_sib_ptg, U.r_cellpos, U.r_tab_attr, U.r_strbytes, U.r_trunc, U.r_names1to1])
+        [T.r_tab_op, T.r_tab_err, G.r_tab_ptg, S.r_sib_xlsx, S.r_sib_xlsb, part(W.r_sst, only=["Lbl", "BrtName"]), U.r_xti, U.r_digits, U.r_sib_ptg, U.r_cellpos, U.r_tab_attr, U.r_strbytes, U.r_trunc, U.r_names1to1, U.r_charcast])
     R["C16"] = _p(
         "Decides: metadata vectors are filled by order-preserving operations only (R-ORDER); visibility and sheet-kind tables follow the specs (R-TAB-VIS, R-TAB-TYP); the date-system element is matched prefix-insensitively (R-NS) and the flag reaches every number conversion (R-NUMCTOR) and accepts both boolean spellings without being reset by attribute-less extension elements (R-TAB-1904); xls defined names resolve their sheet through ExternSheet (R-XTI).",
         "exact name decoding",
         [W.r_order, T.r_tab_vis, T.r_tab_typ, X.r_ns, W.r_numctor, M.r_tab_1904, M.r_unesc, U.r_xti, U.r_benign, U.r_strbytes, part(W.r_sst, only=["Lbl", "BrtName"]), U.r_names1to1])
     R["C17"] = _p(
-        "Decides: guarded header/totals adjustments use their own field and regions/tables are attributed to the scanned sheet (R-TBL); cache fields are written only by their loaders (R-FRAME); Range::range precondition before table windowing (R-RANGEPRE).",
+        "Decides: guarded header/totals adjustments use their own field and regions/tables are attributed to the scanned sheet (R-TBL); per-table defaults are re-initialised per table (R-TBLFRESH); element loops end only at the closing tag, end of input or error (R-COUNTHINT); merge regions accumulate (R-ACCUM); worksheet_merge_cells_at(n) uses the n-th sheet name (R-AT); mergeCell / table elements are matched prefix-insensitively (R-NS); column names are unescaped (R-UNESC); cache fields are written only by their loaders (R-FRAME); Range::range precondition before table windowing (R-RANGEPRE).",
         "coordinate arithmetic",
         [W.r_tbl, W.r_frame, W.r_rangepre, M.r_accum, M.r_tblfresh, M.r_counthint, M.r_unesc, S.r_at, X.r_ns])
+    R["C18"] = _p(
+        "Decides structural clauses of C18 (narrow): the MODULE record walk of the dir stream checks the record ids of [MS-OVBA] 2.3.4.2.3.2 in order, each as a fixed or variable-length record (R-TAB-VBADIR); a module's name, stream name and offset come from the MODULENAME, MODULESTREAMNAME and MODULEOFFSET records, its content is decompress_stream(stream[offset..]) of the stream of that name stored under the module's name, and its text is decoded with the code page read from the project (R-VBAMOD); the framing constants of the decompressor -- container and chunk signatures, header masks, raw-chunk size, BitCount range 4..16, length + 3, offset + 1, LengthMask / OffsetMask -- follow [MS-OVBA] 2.4.1 (R-TAB-OVBA); a flag byte is read only after the chunk-exhaustion test (R-OVBACHUNK) and the chunk start is taken per chunk (R-OVBASTART); both branches of the control-reference record end after its reserved id (R-VBAREF).  Robustness of the decompressor on hostile input is decided under C06.",
+        "that decompression inverts compression (the copy loop, token arithmetic on concrete values), the reference records, project information records other than the code page",
+        [V.r_tab_vbadir, V.r_vbamod, V.r_tab_ovba, U.r_ovbachunk, V.r_vbaref, V.r_ovbastart])
     R["C19"] = _p(
-        "Decides: shared-string tables get one entry per item (R-SST); every text-accumulating event match handles Text and CData and unescapes (R-CDATA); readers never trim and always expand empty elements (R-XMLCFG); phonetic flag set/cleared in pairs and guarding <t> (R-RPH); prefix-insensitive element matching incl. rich-text closing tags (R-NS); CONTINUE handling of xls strings (R-CONT) and the single-decoder rule for their storage forms (R-DBCS-ENC).",
+        "Decides: shared-string tables get one entry per item (R-SST); every text-accumulating event match handles Text and CData, unescapes and appends (R-CDATA); readers never trim and always expand empty elements (R-XMLCFG); phonetic flag set/cleared in pairs and guarding <t> (R-RPH); prefix-insensitive element matching incl. rich-text closing tags (R-NS); text attributes are unescaped (R-UNESC); CONTINUE handling of xls strings (R-CONT) and the single-decoder rule for their storage forms (R-DBCS-ENC); xlsb strings go through a UTF-16 decoder (R-UTF16); ods paragraphs (R-ODSPARA); item loops are not cut at declared counts (R-COUNTHINT).",
         "per-character decoding in dependencies (encoding_rs, quick-xml entity expansion)",
         [part(W.r_sst, only=["shared strings", "xls SST"]), X.r_cdata, X.r_xmlcfg, X.r_rph, X.r_ns, W.r_cont, W.r_odspara, M.r_unesc, M.r_counthint, U.r_dbcs_enc, U.r_utf16])
     R["C20"] = _p(
-        "Decides: the password sniff dominates archive opening and its error is propagated; Password depends exactly on the EncryptedPackage entry; the FILEPASS arm is unconditional; any manifest:encryption-data start returns Password and the scan is always reached; Password variants are built nowhere else (R-PWD).",
+        "Decides: the password sniff dominates archive opening and its error is propagated; it rewinds the reader to offset 0 right before parsing the compound file; Password depends exactly on the EncryptedPackage entry; the FILEPASS arm is unconditional and the only place where xls builds Password; any manifest:encryption-data start returns Password and the scan is always reached; Password variants are built nowhere else (R-PWD).",
         "container-layout independence of the sniff (delegated to C13)",
         [W.r_pwd])
     return R
@@ -102,7 +107,6 @@ def registry():
 NOT_APPLICABLE = {
     "C05": "Range rectangle consistency is index arithmetic over run-time coordinates (inner.len() == width*height, placement, growth, windowing); no structural clause is a necessary condition, and a symbolic length algebra would be a solver, i.e. a different technique family",
     "C15": "shared-formula translation is a text rewrite over an open formula language; which substrings are references and the offset arithmetic are value-level (amplification through the ref attribute is covered under C06)",
-    "C18": "VBA decompression correctness is bit-level arithmetic over token streams; module naming and offsets are run-time values (robustness of decompress_stream is covered under C06)",
 }
 
 
